@@ -629,6 +629,16 @@ func init() {
 		ev.x.ctx.assumeGlobal(ev.st, And(Ge(cnt, IntLit(0)), Le(cnt, strLen(s)), Implies(Gt(strLen(s), IntLit(0)), Gt(cnt, IntLit(0))), Le(strLen(s), Mul(IntLit(4), cnt))))
 		return &Val{T: cnt, Typ: intT}
 	}
+	specBuiltins["stroff"] = func(ev *evaluator, args []*Val) *Val {
+		return &Val{T: strOff(args[0].T), Typ: intT}
+	}
+	// byteat(s, p): the byte at absolute position p of the array backing s (may lie outside s itself)
+	specBuiltins["byteat"] = func(ev *evaluator, args []*Val) *Val {
+		return &Val{T: Select(strArr(args[0].T), args[1].T), Typ: intT}
+	}
+	specBuiltins["samearr"] = func(ev *evaluator, args []*Val) *Val {
+		return &Val{T: Eq(strArr(args[0].T), strArr(args[1].T)), Typ: boolT}
+	}
 	specBuiltins["ascii"] = func(ev *evaluator, args []*Val) *Val {
 		if l, ok := literalOf(args[0].T); ok {
 			return &Val{T: BoolLit(isASCII(l)), Typ: boolT}
